@@ -2156,7 +2156,13 @@ impl Machine {
     pub(crate) fn file_copy(&mut self) {
         if let Some(file) = self.machine_st.value_to_str_like(self.deref_register(1)) {
             if let Some(copied) = self.machine_st.value_to_str_like(self.deref_register(2)) {
-                if fs::copy(&*file.as_str(), &*copied.as_str()).is_ok() {
+                // copying a file onto itself must leave it alone (fs::copy would truncate it)
+                let same_file = match (fs::canonicalize(&*file.as_str()), fs::canonicalize(&*copied.as_str())) {
+                    (Ok(src), Ok(dst)) => src == dst,
+                    _ => false,
+                };
+
+                if same_file || fs::copy(&*file.as_str(), &*copied.as_str()).is_ok() {
                     return;
                 }
             }
